@@ -14,6 +14,7 @@ Correspondence (model vs implementation, pure functions, compared directly):
   corr:C17:DCW      `deep_copy_with(t, mapping, self_is)`        == model `deepCopyWith`
   corr:C17:GENMAP   `generate_mapping(cl)`                         == model `generateMapping`
   corr:C17:RESOLVE  field types bound into the generated hook      == model `structGen` (and refusal == `refuses`)
+  corr:C17:RESOLVEUN types whose hooks the unstructure generator requests == model `unstructGen`
   corr:C17:MONO     field types of the harness's copy              == model `monoFields` (ties the Lean spec to the oracle)
   corr:C17:ALIAS    type handed on by `type_alias_structure_factory` == model `aliasResolve`
   corr:C17:MANGLE   `__name__` of the generated structure hook     == model `mangle`
@@ -395,7 +396,8 @@ class World:
         for lv in self.spec["levels"]:
             out.append("(lvl %s (%s) %s %d %s (%s))" % (
                 esc(lv["name"]), " ".join(esc(p) for p in lv["params"]),
-                pairs_sx(sorted(lv["defaults"].items())), 1 if lv["generic_base"] else 0,
+                pairs_sx(sorted(lv["defaults"].items())),
+                1 if (lv["generic_base"] or (self.spec["style"] == "pep695" and lv["params"])) else 0,
                 pairs_sx(lv["own"]), " ".join(ann_sx(a) for a in lv["base_args"])))
         return "(" + " ".join(out) + ")"
 
@@ -861,6 +863,31 @@ def resolved_types_real(W, hook):
     return out
 
 
+class _SpyConverter(Converter):
+    """records the types whose unstructure hooks a generator asks for (the unstructure templates bind handlers, not
+    types, so this is the only place where the rewritten field types of the unstructure side can be observed)"""
+
+    def get_unstructure_hook(self, t, cache_result=True):
+        if getattr(self, "spy_on", False):
+            self.seen.append(t)
+            return _spy_hook
+        return super().get_unstructure_hook(t, cache_result)
+
+
+def _spy_hook(v):
+    return v
+
+
+def unstructure_types_real(tgt, td):
+    from cattrs.gen import make_dict_unstructure_fn
+    from cattrs.gen.typeddicts import make_dict_unstructure_fn as make_td_unstructure_fn
+    spy = _SpyConverter()
+    spy.seen = []
+    spy.spy_on = True
+    (make_td_unstructure_fn if td else make_dict_unstructure_fn)(tgt, spy)
+    return spy.seen
+
+
 def strip_nr(a):
     return a[2][0] if a[0] == "app" and a[1] == "NotRequired" else a
 
@@ -904,7 +931,7 @@ def eval_world(chk, drv, spec, n_payloads, corr_fail, label=None):
             eff_args = full_args
             tg_sx = "(alias " + " ".join(ann_sx(a) for a in full_args) + ")"
         case0 = {"spec": spec, "args": args0, "label": label, "target_kind": "bare" if args0 is None else "alias"}
-        in_scope = drv.ask("SCOPE %s (%s)" % (chain, " ".join(ann_sx(a) for a in eff_args))) == "1" \
+        in_scope = drv.ask("SCOPE %s (%s) %s" % (chain, " ".join(ann_sx(a) for a in eff_args), tg_sx)) == "1" \
             and all(drv.ask("INSCOPE " + ann_sx(a)) == "1" for a in _all_field_anns(spec))
         if args0 is None and spec["levels"][0]["params"] and not eff_args:
             in_scope = False
@@ -971,6 +998,21 @@ def eval_world(chk, drv, spec, n_payloads, corr_fail, label=None):
             elif not refuses:
                 # real refused, model did not
                 corr_fail.append(("RESOLVE", dict(case0, op="resolve"), "raised " + rh[1], rm))
+
+        # ---------- correspondence: RESOLVEUN (types whose hooks the unstructure generator asks for)
+        ru = attempt(lambda: unstructure_types_real(tgt, td))
+        rmu = parse_sx(drv.ask("UNSTRUCTGEN %s %s" % (chain, tg_sx)))[1]
+        want_u = [json.dumps(W.canon(W.real(strip_nr(ann_of(x[1]))))) for x in rmu if x[1] != "late"]
+        chk.note("corr:RESOLVEUN")
+        if ru[0] != "ok":
+            corr_fail.append(("RESOLVEUN", dict(case0, op="resolve"), "raised " + ru[1], json.dumps(want_u)))
+        else:
+            got_u = [json.dumps(W.canon(t)) for t in ru[1]]
+            if td and rmu and rmu[0][1] != "late":
+                # the TypedDict generator first probes for an all-identity class and stops at the first handler that is not
+                got_u = got_u[1:]
+            if got_u != want_u:
+                corr_fail.append(("RESOLVEUN", dict(case0, op="resolve"), json.dumps(got_u), json.dumps(want_u)))
 
         # ---------- correspondence: MANGLE (function name of the generated hook)
         if rh[0] == "ok" and args0 is not None and kind != "typeddict":
